@@ -18,9 +18,19 @@ type inst struct {
 	name          string
 	closes, drops int
 	inDrop        func() // called from inside Drop (re-entrant use of the wrapper)
+	failClose     bool   // the backend's Close reports an error (the close still counts)
 }
 
-func (s *inst) Close() error { s.closes++; return nil }
+var errClose = errors.New("backend: close failed")
+
+func (s *inst) Close() error {
+	s.closes++
+	if s.failClose {
+		s.failClose = false
+		return errClose
+	}
+	return nil
+}
 func (s *inst) Drop() {
 	s.drops++
 	if f := s.inDrop; f != nil {
@@ -51,9 +61,9 @@ func (b *backend) Flush(id []byte) error                       { return nil }
 func (b *backend) Initialize([]string, []byte) ([]byte, error) { return nil, nil }
 func (b *backend) Close() error                                { return nil }
 
-var opNames = []string{"open(a)", "open(b)", "close(a)", "close(b)", "drop(a)", "drop(b)", "open-backend-fails(a)", "open-backend-fails(b)", "drop-with-reentrant-drop(a)", "drop-with-reentrant-drop(b)"}
+var opNames = []string{"open(a)", "open(b)", "close(a)", "close(b)", "drop(a)", "drop(b)", "open-backend-fails(a)", "open-backend-fails(b)", "drop-with-reentrant-drop(a)", "drop-with-reentrant-drop(b)", "close-backend-errors(a)", "close-backend-errors(b)"}
 
-const nOps = 10
+const nOps = 12
 
 type nameModel struct {
 	ref   int
@@ -131,6 +141,22 @@ func run(c *core.Ctx, wrapper string, seq []int) (ok bool) {
 				if err == nil || st != nil {
 					msg = "OpenDB succeeded although the backend failed"
 				}
+			case 5: // the last close reaches the backend, whose Close reports an error: the open is over all the same
+				if m.cur == nil || m.ref != 1 {
+					return
+				}
+				if is := be.insts[name]; len(is) > 0 {
+					is[len(is)-1].failClose = true
+				}
+				err := m.cur.Close()
+				if is := be.insts[name]; len(is) > 0 {
+					is[len(is)-1].failClose = false
+				}
+				if err == nil {
+					msg = "the backend's Close error was swallowed"
+					return
+				}
+				m.ref--
 			case 4: // drop, with a second Drop issued from inside the backend's Drop
 				if m.cur == nil {
 					return
